@@ -1,25 +1,22 @@
 (* C20 -- VTK output is a well-formed dataset that round-trips: property theorems only.
    Subject: the executable model of optimism/VTKWriter.py in model/M_C20.v ([init], [add_*], [write]) and the independent
    reader [parse] + consistency check [check]; the model is tied to /repo on every run by tools/props/c20.py
-   (token-for-token comparison with the files the implementation writes, and [parse]/[check] run on those files). *)
+   (token-for-token comparison with the files the implementation writes, and [parse]/[check] run on those files).
+   The model follows the repaired code (fix commits 2cde078, 34184b3, 07417cb); the statements are full strength. *)
 From Coq Require Import ZArith List.
 From OV.model Require Import M_C20.
 From OV.proofs Require Import L_C20 L_C20w.
 Import ListNotations.
 
-(* NOT PROVED (false of the faithful model, see the three ..._refuted theorems):
-     forall w, wf_writer w -> in_range w ->
-       parse (fst (write w)) = Some (abstract w) /\ check (abstract w) = true
-       /\ forall n o, In o (writes n w) -> o = fst (write w).
-   The theorems below carry exactly the extra hypotheses under which the model of the current code satisfies it:
-   [all_nodes_written_if_spheres] (defect F10), [no_cell_data_with_edges] (defect F11), and for repeated writes
-   "no spheres or no nodal field besides sphere_radius" (defect F9). *)
-
-(* the file parses, with an independent strict reader, to exactly the supplied dataset, and that dataset is consistent *)
-Theorem C20_roundtrip_wellformed_partial : forall w,
-  wf_writer w -> in_range w -> all_nodes_written_if_spheres w -> no_cell_data_with_edges w ->
-  parse (fst (write w)) = Some (abstract w) /\ check (abstract w) = true.
-Proof. intros w H1 H2 H3 H4. split; [exact (parse_write w H1 H3 H4) | exact (check_abstract w H1 H2)]. Qed.
+(* for EVERY writer state satisfying the invariant (established by init and kept by every operation, below) -- any element
+   order, any nodal / cell fields, any number of spheres and contact edges -- the file parses, with an independent strict
+   reader, to exactly the supplied dataset, and that dataset is consistent.  [in_range] (connectivity and contact-edge ids
+   refer to written points) is a property of the user's mesh / edge list, not of the writer. *)
+Theorem C20_roundtrip_wellformed : forall w,
+  wf_writer w -> in_range w -> parse (fst (write w)) = Some (abstract w) /\ check (abstract w) = true.
+Proof. intros w H1 H2. split; [exact (parse_write w H1) | exact (check_abstract w H1 H2)]. Qed.
+Theorem C20_roundtrip : forall w, wf_writer w -> parse (fst (write w)) = Some (abstract w).
+Proof. exact parse_write. Qed.
 
 (* what the consistency check says: declared counts equal the records read, connectivity refers to read points, every
    array has exactly one record per point / per cell *)
@@ -31,7 +28,7 @@ Theorem C20_check_meaning : forall d, check d = true ->
   /\ data_spec (length (d_cells d)) (d_cd d).
 Proof. exact check_sound. Qed.
 
-(* every state reachable through the public operations satisfies the invariant assumed above *)
+(* every state reachable through the public operations satisfies the invariant *)
 Theorem C20_init_wf : forall m w, init m = Some w -> wf_writer w.
 Proof. exact init_wf. Qed.
 Theorem C20_add_nodal_field_wf : forall w nm data ft dt w',
@@ -45,63 +42,56 @@ Proof. exact add_sphere_wf. Qed.
 Theorem C20_add_contact_edges_wf : forall w es, wf_writer w -> wf_writer (add_contact_edges w es).
 Proof. exact add_contact_edges_wf. Qed.
 
-Theorem C20_write_wf_partial : forall w,
-  wf_writer w -> w_spheres w = [] \/ only_sphere_radius w -> wf_writer (snd (write w)).
-Proof. exact write_wf. Qed.
-
-(* repeated writes *)
-Theorem C20_write_keeps_state_without_spheres : forall w, w_spheres w = [] -> snd (write w) = w.
-Proof. exact write_no_spheres. Qed.
-Theorem C20_repeated_writes_identical_partial : forall w,
-  NoDup (map fst (w_nodal w)) -> w_spheres w = [] \/ only_sphere_radius w ->
-  forall n o, In o (writes n w) -> o = fst (write w).
+(* repeated writes: write() leaves the writer unchanged, so any number of writes produces identical files *)
+Theorem C20_write_keeps_state : forall w, snd (write w) = w.
+Proof. exact write_state. Qed.
+Theorem C20_repeated_writes_identical : forall w n o, In o (writes n w) -> o = fst (write w).
 Proof. exact repeated_writes. Qed.
+Theorem C20_writes_count : forall n w, length (writes n w) = n.
+Proof. exact writes_length. Qed.
 
-(* the clauses the current code does not satisfy, with witnesses (each replayed on the implementation as a known finding) *)
-Theorem C20_double_write_refuted :
+(* regression theorems: the reachable states on which the code failed before the repairs (known findings F9, F10, F11,
+   now fixed) -- each is replayed on the implementation by the harness *)
+Theorem C20_double_write_regression :
   exists w0 w1, init m1 = Some w0 /\ add_nodal_field w0 1 [[q 5]; [q 6]; [q 7]] SCALARS DOUBLE = Some w1 /\
   let w := add_sphere w1 (q 2) (q 2) (q 1) in
-  (wf_writer w /\ in_range w /\ all_nodes_written_if_spheres w /\ no_cell_data_with_edges w)
-  /\ parse (fst (write w)) = Some (abstract w)
-  /\ fst (write (snd (write w))) <> fst (write w)
-  /\ parse (fst (write (snd (write w)))) = None
-  /\ ~ wf_writer (snd (write w)).
-Proof. exact double_write_witness. Qed.
-Theorem C20_sphere_radius_count_refuted :
+  (wf_writer w /\ in_range w)
+  /\ parse (fst (write w)) = Some (abstract w) /\ check (abstract w) = true
+  /\ snd (write w) = w /\ fst (write (snd (write w))) = fst (write w)
+  /\ parse (fst (write (snd (write w)))) = Some (abstract w).
+Proof. exact double_write_regression. Qed.
+Theorem C20_sphere_radius_count_regression :
   exists w0, init m3 = Some w0 /\
   let w := add_sphere w0 (q 1) (q 1) (q 1) in
-  (wf_writer w /\ in_range w /\ no_cell_data_with_edges w /\ w_nall w <> length (w_points w))
-  /\ exists d n arrs, parse (fst (write w)) = Some d /\ d_pd d = Some (n, arrs) /\ length (d_pts d) = 4 /\ n = 11
-                      /\ c_pd d = false /\ check d = false.
-Proof. exact sphere_radius_count_witness. Qed.
-Theorem C20_cell_data_count_refuted :
+  (wf_writer w /\ in_range w /\ w_nall w <> length (w_points w))
+  /\ parse (fst (write w)) = Some (abstract w) /\ check (abstract w) = true
+  /\ exists arrs, d_pd (abstract w) = Some (4, arrs) /\ length (d_pts (abstract w)) = 4.
+Proof. exact sphere_radius_count_regression. Qed.
+Theorem C20_cell_data_count_regression :
   exists w0 w1, init m1 = Some w0 /\ add_cell_field w0 1 [[q 5]] SCALARS INT = Some w1 /\
   let w := add_contact_edges w1 [(0, 1)] in
-  (wf_writer w /\ in_range w /\ all_nodes_written_if_spheres w)
-  /\ exists d n arrs, parse (fst (write w)) = Some d /\ d_cd d = Some (n, arrs) /\ length (d_cells d) = 2 /\ n = 1
-                      /\ c_cd d = false /\ check d = false.
-Proof. exact cell_data_count_witness. Qed.
+  (wf_writer w /\ in_range w)
+  /\ parse (fst (write w)) = Some (abstract w) /\ check (abstract w) = true
+  /\ exists arrs, d_cd (abstract w) = Some (2, arrs) /\ length (d_cells (abstract w)) = 2.
+Proof. exact cell_data_count_regression. Qed.
 
-(* non-vacuity: reachable states meeting every hypothesis of C20_roundtrip_wellformed_partial *)
-Example C20_nonvacuous_fields :
-  exists w0 w1 w2, init m1 = Some w0
-  /\ add_nodal_field w0 1 [[q 1; q 2; q 3; q 4]; [q 5; q 6; q 7; q 8]; [q 9; q 1; q 2; q 3]] TENSORS FLOAT = Some w1
+(* non-vacuity: a reachable state with everything at once (cubic element, tensor nodal field, vector cell field, two
+   spheres, two contact edges) meets the hypotheses *)
+Example C20_nonvacuous_all :
+  exists w0 w1 w2, init m3 = Some w0
+  /\ add_nodal_field w0 1 [[q 1; q 2; q 3; q 4]; [q 5; q 6; q 7; q 8]; [q 9; q 1; q 2; q 3]; [q 1; q 1; q 1; q 1];
+                           [q 2; q 2; q 2; q 2]; [q 3; q 3; q 3; q 3]; [q 4; q 4; q 4; q 4]; [q 5; q 5; q 5; q 5];
+                           [q 6; q 6; q 6; q 6]; [q 7; q 7; q 7; q 7]] TENSORS FLOAT = Some w1
   /\ add_cell_field w1 2 [[q 1; q 2]] VECTORS INT = Some w2
-  /\ (wf_writer w2 /\ in_range w2 /\ all_nodes_written_if_spheres w2 /\ no_cell_data_with_edges w2)
-  /\ parse (fst (write w2)) = Some (abstract w2) /\ check (abstract w2) = true.
-Proof. exact nonvacuous_a. Qed.
-Example C20_nonvacuous_sphere_edge :
-  exists w0 w1, init m1 = Some w0
-  /\ add_nodal_field w0 1 [[q 1; q 2]; [q 5; q 6]; [q 9; q 1]] VECTORS DOUBLE = Some w1
-  /\ let w := add_contact_edges (add_sphere w1 (q 2) (q 2) (q 1)) [(0, 3)] in
-     (w_spheres w <> [] /\ w_edges w <> [] /\ w_nodal w <> [])
-  /\ (wf_writer w /\ in_range w /\ all_nodes_written_if_spheres w /\ no_cell_data_with_edges w)
+  /\ let w := add_contact_edges (add_sphere (add_sphere w2 (q 2) (q 2) (q 1)) (q 4) (q 4) (q 2)) [(0, 3); (4, 1)] in
+     (w_spheres w <> [] /\ w_edges w <> [] /\ w_nodal w <> [] /\ w_cell w <> [] /\ w_nall w <> length (w_points w))
+  /\ (wf_writer w /\ in_range w)
   /\ parse (fst (write w)) = Some (abstract w) /\ check (abstract w) = true.
-Proof. exact nonvacuous_b. Qed.
+Proof. exact nonvacuous_all. Qed.
 
-Print Assumptions C20_roundtrip_wellformed_partial.
-Print Assumptions C20_repeated_writes_identical_partial.
+Print Assumptions C20_roundtrip_wellformed.
+Print Assumptions C20_repeated_writes_identical.
 Print Assumptions C20_add_nodal_field_wf.
-Print Assumptions C20_double_write_refuted.
-Print Assumptions C20_sphere_radius_count_refuted.
-Print Assumptions C20_cell_data_count_refuted.
+Print Assumptions C20_double_write_regression.
+Print Assumptions C20_sphere_radius_count_regression.
+Print Assumptions C20_cell_data_count_regression.
